@@ -7,6 +7,12 @@ Part A (read): the real Terminal.read_eeprom / _eeprom_read_one run over the
   durations at the three polling loops are explorer choices (k = 2).  The
   type alphabet contains the NOP category 0 (with 0, 1, 2.. words, at every
   position of the list): only 0xffff ends the list.
+Part AV (read, vendor types): the same walks over category lists whose types
+  have bit 15 set (vendor specific: 0x8000, 0x8001, 0xfffe and 0x8000|t for
+  the standard types t = 10, 30, 40, 41, 50, 51, 60), alone, and before /
+  after the category with the same low 15 bits (0, 1, 0x7ffe, t), with
+  different contents and lengths; items of part A.  Only 0xffff ends the
+  list; every other 16-bit type is a key of its own.
 Part A2 (read again): the same walks as the SECOND read_eeprom of a Terminal
   object that has read another image before (FIRSTS: other lengths, other
   categories, garbage or 0xff behind the end marker; the stream lengths
@@ -20,6 +26,17 @@ Part B (layout): Terminal.parse_sync_managers over every sequence of 0..4
 Part C (chain): apply_eeprom + parse_pdos on complete images, both sources:
   EEPROM categories 50/51 (no mailbox) and the SDO objects 0x1C12/0x1C13 read
   with the real sdo_read from the SDO server of mc/coe.py (mailbox).
+  CV: complete images holding all of 10, 30, 40, 41, 50, 51, 60 plus one
+  vendor category (a well-formed sync-manager / PDO category of another
+  layout for 0x8029 / 0x8032 / 0x8033) right before or right after the
+  category with the same low bits, both sources.  CS: mailbox terminals
+  whose assignment objects 0x1C12 / 0x1C13 hold unused (zero) slots.
+Part S (SDO source, assignment lists): the real parse_pdos of a mailbox
+  terminal on a dictionary-backed sdo_read; 0x1C12 x 0x1C13 over every list
+  of 0..3 slots from {0, PDO A, PDO B, PDO C} (non-zero slots distinct):
+  zero first, in the middle, at the end, only zeros.  Reference: a zero
+  slot is unused and skipped; every non-zero slot contributes its PDO's
+  entries, in slot order.
 Part C2 (chain again): the chain as the second one of a Terminal object that
   went through it on another complete image (other shape / source / category
   list) before; judged like a fresh object.  (parse_sync_managers twice on one
@@ -40,7 +57,11 @@ LEVEL = "model_checking"
 RULE = ("A: category lists of 0..3 distinct types from 8 (NOP = 0 among "
         "them, at every position) x word lengths "
         "{0,1,2,3,4,5,9} x read size 4/8 x busy polls <= 2 per polling loop "
-        "(deviation-bounded); A2: the same lists read as the second "
+        "(deviation-bounded); AV: vendor types {0x8000, 0x8001, 0xfffe, "
+        "0x8000|t for t in 10,30,40,41,50,51,60} alone (all lengths), "
+        "before and after the category with the same low 15 bits (lengths "
+        "{0,1,3}^2 quick, all pairs thorough), and the orders of "
+        "(x, t, 0x8000|t); A2: the same lists read as the second "
         "read_eeprom of a Terminal object after one of 8 first images (all "
         "of them for <= 1 category, one in turn for longer lists); B: all sync-manager sequences (<= 4 entries, 4 "
         "modes) and all PDO category shapes (1..2 PDOs x 0..3 entries of 8 "
@@ -48,7 +69,11 @@ RULE = ("A: category lists of 0..3 distinct types from 8 (NOP = 0 among "
         "bits at bit positions {0,3,4} and 3/4-bit fields: 15 kinds for "
         "pairs of <= 2 entries and single PDOs of 3, and prefix x gap x "
         "suffix PDOs); C: complete images through "
-        "apply_eeprom + parse_pdos from EEPROM and from SDO; C2: the chain "
+        "apply_eeprom + parse_pdos from EEPROM and from SDO, among them "
+        "images with one vendor category next to its standard namesake "
+        "and SDO assignment objects with unused slots; S: parse_pdos from "
+        "a dictionary-backed sdo_read, 0x1C12 x 0x1C13 over all lists of "
+        "0..3 slots from {0, A, B, C} (52 x 52) x 3 PDO triples; C2: the chain "
         "as the second one of a Terminal object after another image; "
         "non-trivial = "
         "at least one category / sync manager / mapped entry; distinct = "
@@ -67,6 +92,17 @@ FIRSTS = [((), False), (((60, 1),), True), (((41, 2),), False),
           (((51, 3),), True), (((10, 0),), True),
           (((30, 5), (50, 4)), False), (((0, 0), (0x7FFF, 1)), True),
           ((), True)]
+# vendor specific category types (bit 15 set); 0xffff alone ends the list.
+# VSTD: the standard types; the code under test looks at 41, 50, 51 (and the
+# scripts at 10).
+VSTD = [10, 30, 40, 41, 50, 51, 60]
+VTYPES = [0x8000, 0x8001, 0xFFFE] + [0x8000 | t for t in VSTD]
+# SDO source: the three PDOs of a direction (kinds per PDO; the other
+# direction takes them in reverse order).  Variant 2 has PDOs that are not a
+# whole number of bytes, so some orders cannot be described (RuntimeError).
+SDO_VARIANTS = [(("u8",), ("b1", "b2", "pad5"), ("u16",)),
+                (("b1", "pad7", "u8"), ("u16", "u8"), ("b4", "b4")),
+                (("b1",), ("b2", "b3"), ("u8",))]
 K = 2
 KF_UNASSIGNED = "C17-pdo-unassigned-counted"
 FMT = {8: "B", 16: "H", 32: "I", 64: "Q"}
@@ -372,7 +408,7 @@ def drive(coro):
     except StopIteration as e:
         return e.value
     coro.close()
-    raise core.Internal("parse_pdos waited for the bus in the EEPROM path")
+    raise core.Internal("parse_pdos waited for the bus without a bus")
 
 
 def plain(d):
@@ -462,8 +498,75 @@ def work_pdo(item, res):
 
 
 # ------------------------------------------------------------------ part C
+def conf_opt(conf):
+    """the optional 5th element of a chain configuration:
+    ("v", vendor type, after) or ("assign", rx slots, tx slots)"""
+    return conf[4] if len(conf) > 4 else None
+
+
+def vendor_content(vtype):
+    """contents of the vendor category: a well-formed category of the kind
+    its low 15 bits would name, describing ANOTHER layout than the real one
+    of the image"""
+    t = vtype & 0x7FFF
+    if t == 41:
+        return coe.sm_category(
+            [coe.SmEntry(0x1400, 4, 0x20, 0, 1, coe.SM_PD_IN),
+             coe.SmEntry(0x1480, 6, 0x24, 0, 1, coe.SM_PD_OUT)])
+    if t == 51:
+        return coe.pdo_category(build_pdos((("u16", "u8"),), 0x7100, 2,
+                                           False))
+    if t == 50:
+        return coe.pdo_category(build_pdos((("u8", "u32"),), 0x6100, 3,
+                                           False))
+    return category_bytes(6, 4)
+
+
+def assign_lists(maxlen=3):
+    """every assignment list of 0..maxlen slots over {0 = unused slot,
+    1, 2, 3 = PDO A, B, C}; a PDO is assigned at most once"""
+    out = []
+    for n in range(maxlen + 1):
+        for lst in itertools.product(range(4), repeat=n):
+            used = [k for k in lst if k]
+            if len(used) == len(set(used)):
+                out.append(lst)
+    return out
+
+
+def assign_objects(rl, tl, rxp, txp):
+    """object dictionary {(index, sub): bytes} of a terminal whose
+    assignment objects hold the slots rl / tl (0 = unused slot, k = the
+    k-th PDO of the direction)"""
+    obj = {}
+    for assign, slots, pdos in ((0x1c12, rl, rxp), (0x1c13, tl, txp)):
+        obj[assign, 0] = bytes([len(slots)])
+        for i, k in enumerate(slots, 1):
+            obj[assign, i] = struct.pack("<H", pdos[k - 1].index if k else 0)
+        for p in pdos:
+            obj[p.index, 0] = bytes([len(p.entries)])
+            for j, e in enumerate(p.entries, 1):
+                obj[p.index, j] = struct.pack("<BBH", e.bits, e.subindex,
+                                              e.index)
+    return obj
+
+
+def assigned(slots, pdos):
+    """reference: unused slots are skipped, every other slot contributes
+    its PDO, in slot order"""
+    return [pdos[k - 1] for k in slots if k]
+
+
+def chain_objects(conf, rx, tx):
+    opt = conf_opt(conf)
+    if opt and opt[0] == "assign":
+        return assign_objects(opt[1], opt[2], rx, tx)
+    return coe.pdo_objects(rx, tx)
+
+
 def chain_image(conf, seed):
-    mailbox, shape, unassigned, extra = conf
+    mailbox, shape, unassigned, extra = conf[:4]
+    opt = conf_opt(conf)
     sms = []
     if mailbox:
         sms += [coe.SmEntry(0x1000, 32, 0x26, 0, 1, coe.SM_MBX_OUT),
@@ -472,15 +575,28 @@ def chain_image(conf, seed):
             coe.SmEntry(0x1180, 0, 0x20, 0, 1, coe.SM_PD_IN)]
     rx = build_pdos(shape, 0x7000, 2, unassigned)
     tx = build_pdos(shape[::-1], 0x6000, 3, unassigned)
+    vendor = opt is not None and opt[0] == "v"
     cats = []
-    if extra:
+    if extra or vendor:
         cats.append((10, category_bytes(0, 3)))
         cats.append((30, category_bytes(1, 9)))
+    if vendor:
+        cats.append((40, category_bytes(2, 2)))
     cats.append((41, coe.sm_category(sms)))
     cats.append((50, coe.pdo_category(tx)))
     cats.append((51, coe.pdo_category(rx)))
-    if extra:
+    if extra or vendor:
         cats.append((60, category_bytes(5, 5)))
+    if vendor:
+        _, vtype, after = opt
+        entry = (vtype, vendor_content(vtype))
+        at = [i for i, (t, d) in enumerate(cats) if t == vtype & 0x7FFF]
+        if at:          # next to the category with the same low 15 bits
+            cats.insert(at[0] + 1 if after else at[0], entry)
+        elif after:     # 0x8000, 0x8001, 0xfffe: last / first of the list
+            cats.append(entry)
+        else:
+            cats.insert(0, entry)
     ident = identity(seed + len(shape), seed)
     return ident, sms, rx, tx, cats, coe.sii_image(
         *ident, categories=cats, pad=0,
@@ -516,7 +632,7 @@ def execute_chain(ch, conf, eight, seed, first=None):
             fident, fsms, frx, ftx, fcats, fimage = chain_image(first,
                                                                 seed + 1)
             t.sii = bytearray(fimage)
-            t.mbx_handler = coe.SdoServer(coe.pdo_objects(frx, ftx))
+            t.mbx_handler = coe.SdoServer(chain_objects(first, frx, ftx))
             fut = asyncio.ensure_future(chain())
             done = m.run(fut, max_frames=frame_budget(fimage) + 2000)
             before = bool(done)
@@ -525,7 +641,7 @@ def execute_chain(ch, conf, eight, seed, first=None):
             t.sii = bytearray(image)
             m.frames = 0
             live[0] = True
-        server = coe.SdoServer(coe.pdo_objects(rx, tx))
+        server = coe.SdoServer(chain_objects(conf, rx, tx))
         t.mbx_handler = server
         fut = asyncio.ensure_future(chain())
         done = m.run(fut, max_frames=frame_budget(image) + 2000)
@@ -580,7 +696,11 @@ def judge_chain(conf, seed, obs, term_pdos, term):
         return ("SDO protocol", [], [obs["errors"], obs["aborts"]], None)
     if mailbox and not obs["raised"] and obs["requests"] == 0:
         return ("SDO source used with a mailbox", "> 0 requests", 0, None)
-    if mailbox:
+    opt = conf_opt(conf)
+    if mailbox and opt and opt[0] == "assign":
+        # unused (zero) slots of the assignment objects are skipped
+        rx, tx = assigned(opt[1], rx), assigned(opt[2], tx)
+    elif mailbox:
         # the SDO source only lists assigned PDOs
         rx = [p for p in rx if p.sm != 0xff]
         tx = [p for p in tx if p.sm != 0xff]
@@ -634,12 +754,97 @@ def work_chain(item, res):
         res.caps_hit.append(f"{part} {conf}: {cnt} executions")
 
 
+# ------------------------------------------------------------------ part S
+def parse_from_sdo(objects):
+    """the real parse_pdos of a mailbox terminal; sdo_read answers from the
+    object dictionary"""
+    term = Terminal(None)
+    term.parse_sync_managers(coe.sm_category(
+        [coe.SmEntry(0x1000, 32, 0x26, 0, 1, coe.SM_MBX_OUT),
+         coe.SmEntry(0x1080, 24, 0x22, 0, 1, coe.SM_MBX_IN),
+         coe.SmEntry(0x1100, 0, 0x24, 0, 1, coe.SM_PD_OUT),
+         coe.SmEntry(0x1180, 0, 0x20, 0, 1, coe.SM_PD_IN)]))
+    if not term.has_mailbox():
+        raise core.Internal("part S: the terminal has no mailbox")
+    term.eeprom = {}
+    reads = []
+
+    async def sdo_read(index, subindex=None):
+        reads.append((index, subindex))
+        if (index, subindex) not in objects:
+            raise core.Internal(f"part S: object {index:#x}:{subindex} "
+                                "does not exist")
+        return objects[index, subindex]
+    term.sdo_read = sdo_read
+    raised = ret = None
+    try:
+        ret = drive(term.parse_pdos())
+    except core.Internal:
+        raise
+    except Exception as e:
+        raised = (type(e).__name__, str(e)[:60])
+    return term.pdos, ret, raised, reads
+
+
+def run_assign(vi, rl, tl):
+    variant = SDO_VARIANTS[vi]
+    rxp = build_pdos(variant, 0x7000, 2, False)
+    txp = build_pdos(variant[::-1], 0x6000, 3, False)
+    pdos, ret, raised, reads = parse_from_sdo(
+        assign_objects(rl, tl, rxp, txp))
+    return pdos, judge_pdos(pdos, ret or (), assigned(rl, rxp),
+                            assigned(tl, txp), raised)
+
+
+def work_assign(item, res):
+    """S: 0x1C12 holds the slots rl, 0x1C13 every list in turn"""
+    _, vi, rl, seed = item
+    for tl in assign_lists():
+        pdos, v = run_assign(vi, rl, tl)
+        res.count("evaluations")
+        if v == "rejected":
+            res.count("outside_precondition")
+            res.outcomes.add(("S", "rejected"))
+            continue
+        if any(rl) or any(tl):
+            res.nontrivial.add(core.digest(["S", vi, rl, tl]))
+        res.outcomes.add(("S", "ok" if v is None else "bad", len(pdos)))
+        if v:
+            res.violation(dict(part="S", variant=vi, rl=list(rl),
+                               tl=list(tl), seed=seed),
+                          v[1], v[2], kf=v[3],
+                          sig=core.digest(["S", v[0], v[3]]),
+                          note=v[0] + " (SDO source; 0 = unused slot of "
+                          "0x1C12 / 0x1C13)")
+
+
 # ------------------------------------------------------------------ driving
 def shapes_read(maxcats):
     for n in range(maxcats + 1):
         for types in itertools.permutations(TYPES, n):
             for words in itertools.product(WORDS, repeat=n):
                 yield tuple(zip(types, words))
+
+
+def shapes_vendor(quick):
+    """category lists with vendor specific types: every one alone; with the
+    category that has the same low 15 bits, before and after it; (thorough)
+    the three orders of both around / between another vendor category"""
+    for v in VTYPES:
+        for w in WORDS:
+            yield ((v, w),)
+    words = [0, 1, 3] if quick else WORDS
+    for v in VTYPES:
+        for w1 in words:
+            for w2 in words:
+                yield ((v & 0x7FFF, w1), (v, w2))
+                yield ((v, w2), (v & 0x7FFF, w1))
+    for x in ((0xFFFE,) if quick else (0xFFFE, 0x8001)):
+        for t in ((41, 51) if quick else VSTD):
+            for ws in ([(1, 2, 3)] if quick else
+                       itertools.product((1, 2), repeat=3)):
+                for perm in itertools.permutations((x, t, 0x8000 | t)):
+                    yield tuple(zip(perm, ws))
 
 
 def gap_shapes():
@@ -663,7 +868,8 @@ def pdo_shapes(max_entries, max_pdos, kinds=KINDS):
 
 def work(item, res):
     {"A": work_read, "A2": work_read, "sm": work_sm, "sm2": work_sm2,
-     "pdo": work_pdo, "C": work_chain, "C2": work_chain}[item[0]](item, res)
+     "pdo": work_pdo, "C": work_chain, "C2": work_chain,
+     "S": work_assign}[item[0]](item, res)
 
 
 def items(ctx):
@@ -671,7 +877,9 @@ def items(ctx):
     out = []
     # ---- A
     n = 0
-    for shape in shapes_read(2 if ctx.quick else 3):
+    for shape in itertools.chain(shapes_read(2 if ctx.quick else 3),
+                                 shapes_vendor(ctx.quick)):
+        vend = any(t >= 0x8000 for t, w in shape)
         n += 1
         for eight in (False, True):
             pick = (n + seed) % (29 if ctx.quick else 7) == 0
@@ -683,13 +891,17 @@ def items(ctx):
                 bound = 2 if pick else 1
             else:
                 bound = 1 if (n + seed) % 97 == 0 else 0
+            if vend:
+                # the busy durations are explored on the standard types;
+                # the vendor lists take one deviation less
+                bound = max(bound - 1, 0)
             out.append(("A", shape, n, eight, bound, seed))
             # the same walk as the second read of a Terminal object: after
             # every first image for <= 1 category, after one of them (in
             # turn) for the longer lists
-            if len(shape) <= 1:
+            if len(shape) <= 1 and not vend:
                 firsts = range(len(FIRSTS))
-            elif len(shape) == 2 or (n + seed) % 4 == 0:
+            elif len(shape) <= 2 or (n + seed) % 4 == 0:
                 firsts = [(n + seed + eight) % len(FIRSTS)]
             else:
                 firsts = []
@@ -748,6 +960,34 @@ def items(ctx):
         first = confs[(i - step) % len(confs)][1]
         if first != it[1] and (not ctx.quick or (i + seed) % 2 == 0):
             out.append(("C2", it[1], it[2], 0, seed, first))
+    # ---- CV: complete images with one vendor category next to the
+    # category with the same low 15 bits (before / after), both sources
+    vshapes = [(("u8",),), (("b1", "pad", "u16"), ("u8",))]
+    if not ctx.quick:
+        vshapes += [(("u16", "b2"),), (("u32",), ("b1", "b2"))]
+    for shape in vshapes:
+        for mailbox in (False, True):
+            for v in VTYPES:
+                for after in (False, True):
+                    m += 1
+                    conf = (mailbox, shape, False, True, ("v", v, after))
+                    out.append(("C", conf, (m + seed) % 2 == 0,
+                                1 if (m + seed) % 23 == 0 else 0, seed))
+    # ---- CS: assignment objects with unused slots, read with the real
+    # sdo_read from the SDO server: every list once per direction (quick),
+    # against 1 / 3 / 5 others (thorough)
+    lists = assign_lists()
+    for vi, variant in enumerate(SDO_VARIANTS[:1 if ctx.quick else 3]):
+        for step in ((7,) if ctx.quick else (7, 19, 33)):
+            for i, rl in enumerate(lists):
+                m += 1
+                tl = lists[(i * step + 3 + seed) % len(lists)]
+                conf = (True, variant, False, m % 2 == 0, ("assign", rl, tl))
+                out.append(("C", conf, (m + seed) % 2 == 0, 0, seed))
+    # ---- S: 0x1C12 x 0x1C13 over all assignment lists, per variant
+    for vi in range(len(SDO_VARIANTS)):
+        for rl in lists:
+            out.append(("S", vi, rl, seed))
     return out
 
 
@@ -769,7 +1009,15 @@ def run(ctx):
     res.cov["states"] = len(res.nontrivial)
     res.cov["traces_validated_against_impl"] = res.cov.get("evaluations", 0)
     res.cov["items"] = {k: sum(1 for i in its if i[0] == k)
-                        for k in ("A", "A2", "sm", "sm2", "pdo", "C", "C2")}
+                        for k in ("A", "A2", "sm", "sm2", "pdo", "C", "C2",
+                                  "S")}
+    res.cov["items"]["A-vendor"] = sum(
+        1 for i in its if i[0] == "A" and any(t >= 0x8000 for t, w in i[1]))
+    res.cov["items"]["C-vendor"] = sum(
+        1 for i in its if i[0] == "C" and (conf_opt(i[1]) or [0])[0] == "v")
+    res.cov["items"]["C-assign"] = sum(
+        1 for i in its if i[0] == "C" and
+        (conf_opt(i[1]) or [0])[0] == "assign")
     res.cov["model_selftest"] = stats
     res.cov["bound_completed"] = 2 if ctx.quick else 3
     res.sample(dict(part="A", shape=[[41, 3], [10, 9]], eight=False,
@@ -795,12 +1043,21 @@ def run(ctx):
         "no room in the process data; the SDO source lists assigned PDOs "
         "only",
         "busy deviations: bound 3 for <= 1 category, 1..2 for 2 categories, "
-        "0..1 for 3 categories (quick: 2 for <= 1 category and a slice)",
+        "0..1 for 3 categories (quick: 2 for <= 1 category and a slice); "
+        "one less for the lists with vendor types",
         "category type 0 is the NOP category of the SII and may carry any "
         "number of words, also none, anywhere in the list; only the type "
         "0xffff ends the list (an all-zero header is never used as an end: "
         "every image ends with 0xffff); what follows the end marker in the "
         "image means nothing (0xff or garbage)",
+        "a category type with bit 15 set (vendor specific) is a type like "
+        "any other: the category is returned under the 16-bit type stored "
+        "in its header, and it is not the standard category with the same "
+        "low 15 bits; only 0xffff is the end marker",
+        "SDO source: a slot of 0x1C12 / 0x1C13 holding 0 is unused and is "
+        "skipped, wherever it is in the list; the other slots contribute "
+        "their PDOs in slot order; lists assigning one PDO twice are not "
+        "enumerated",
         "A2 / C2: reading (applying, parsing) again on the same Terminal "
         "object has to give what a fresh object gives for the image now in "
         "the terminal; the first read runs without busy polls, only the "
@@ -826,13 +1083,18 @@ def replay(ctx, rep):
         work_sm(("sm", tuple(c["seq"]), c["seed"]), res)
     elif part == "B-sm2":
         work_sm2(("sm2", tuple(c["first"]), tuple(c["seq"]), c["seed"]), res)
+    elif part == "S":
+        pdos, v = run_assign(c["variant"], tuple(c["rl"]), tuple(c["tl"]))
+        print(plain(pdos))
+        if v and v != "rejected":
+            res.violation(c, v[1], v[2], kf=v[3], note=v[0])
     elif part == "B-pdo":
         work_pdo(("pdo", tuple(tuple(s) for s in c["shape"]),
                   c["unassigned"], c["seed"]), res)
     else:
         def conf_of(conf):
-            return (conf[0], tuple(tuple(s) for s in conf[1]), conf[2],
-                    conf[3])
+            return tuple(conf_of(x) if isinstance(x, (list, tuple)) else x
+                         for x in conf)
         conf = conf_of(c["conf"])
         first = conf_of(c["first"]) if c.get("first") else None
         out = execute_chain(explore.Chooser(tuple(c["choices"])), conf,
